@@ -1,0 +1,58 @@
+//go:build verif
+
+package treemap
+
+// Verification probe (build tag verif only): read-only access to the tree's shape for the
+// correspondence check in /verif.  Nothing here is compiled into a normal build.
+
+// VerifNode is one node of the pre-order dump.
+type VerifNode struct {
+	Red      bool
+	HasLeft  bool
+	HasRight bool
+	Key      KeyType
+	Value    interface{}
+}
+
+// VerifDump returns the tree in pre-order, whether every parent link is consistent
+// (root.parent == nil, child.parent == node), the size field and the version counter.
+// The walk gives up (parentsOK = false) after limit nodes so that a corrupted, cyclic
+// structure cannot hang the caller.
+func (m *Map) VerifDump(limit int) (nodes []VerifNode, parentsOK bool, size int, version int) {
+	parentsOK = true
+	if m.root != nil && m.root.parent != nil {
+		parentsOK = false
+	}
+	var walk func(e *Entry)
+	walk = func(e *Entry) {
+		if e == nil {
+			return
+		}
+		if len(nodes) >= limit {
+			parentsOK = false
+			return
+		}
+		nodes = append(nodes, VerifNode{
+			Red:      e.color == RED,
+			HasLeft:  e.left != nil,
+			HasRight: e.right != nil,
+			Key:      e.key,
+			Value:    e.value,
+		})
+		if e.left != nil && e.left.parent != e {
+			parentsOK = false
+		}
+		if e.right != nil && e.right.parent != e {
+			parentsOK = false
+		}
+		walk(e.left)
+		walk(e.right)
+	}
+	walk(m.root)
+	return nodes, parentsOK, m.size, m.version
+}
+
+// VerifLowerEntry exposes the unexported getLowerEntry.
+func (m *Map) VerifLowerEntry(key KeyType) *Entry {
+	return m.getLowerEntry(key)
+}
